@@ -39,6 +39,20 @@ def execute(case, ctx):
     spec = SPECS[name]
     if case.get("copies"):
         case = dict(case)
+    solo_first = bool(case["seed"] % 2)
+    pre_solo = {}
+    if solo_first:
+        # run the solo episodes BEFORE the batched one on the same (cached, sequentially reused) env object, so that
+        # state an env object keeps across resets (index tables, cached sizes) is exercised in both orders
+        inst0 = ctx.guard(spec.instance, case, what=f"instance|{name}")
+        env0 = spec.env(case["cfg"])
+        from ..envs import py_instance as _pyi
+        cap0 = max(spec.bound(case["cfg"], _pyi(name, inst0[b])) for b in range(inst0.batch_size[0])) + 6
+        for x in range(inst0.batch_size[0]):
+            r = case["rows"][x % len(case["rows"])]
+            pre_solo[x] = ctx.guard(run_episode, env0, inst0[x:x + 1], [r["mode"]], [r["stream"]], cap0, True,
+                                    what=f"solo_episode|{name}")
+        ctx.event("order:solo_first")
     spec, env, inst, insts, ep = play(case, ctx, keep_states=True)
     sl = spec.slice_of(case["cfg"])
     ctx.event(f"env:{name}")
@@ -54,8 +68,11 @@ def execute(case, ctx):
     for x in range(B):
         fin = ep.finish_step(x)
         env1 = spec.env(case["cfg"])
-        solo = ctx.guard(run_episode, env1, inst[x:x + 1], [rows[x % len(rows)]["mode"]],
-                         [rows[x % len(rows)]["stream"]], cap, True, what=f"solo_episode|{name}|{sl}")
+        if x in pre_solo:
+            solo = pre_solo[x]
+        else:
+            solo = ctx.guard(run_episode, env1, inst[x:x + 1], [rows[x % len(rows)]["mode"]],
+                             [rows[x % len(rows)]["stream"]], cap, True, what=f"solo_episode|{name}|{sl}")
         det = {"row": x, "B": B, "batched_actions": A[x].tolist(), "solo_actions": solo.actions_tensor()[0].tolist()
                if solo.T else [], "finish_batched": fin, "instance": insts[x]}
         padded = fin is not None and fin < ep.T
